@@ -91,6 +91,8 @@ GROUPS = {"unmanaged": "presence", "noNode": "presence", "nodeGone": "presence",
           "podDndTrue": "podDnd", "podDndDur": "podDnd", "podDndDurEdge": "podDnd", "podDndDurExpired": "podDnd",
           "podDndNoStart": "podDnd", "podDndInvalid": "podDnd", "podDndTerminal": "podDnd", "podDndTerminating": "podDnd", "dsPodDnd": "podDnd", "pdbZero": "pdb",
           "pdbOk": "pdb", "pdbMulti": "pdb", "pdbZeroWaived": "pdb", "pdbZeroTolerating": "pdb", "pdbZeroOtherNs": "pdb", "pdbZeroAll": "pdb", "pdbZeroNilSel": "pdb",
+          "costMixedNeg": "cost", "costMixedPrio": "cost", "costAllNonPos": "cost", "costEdgeZero": "cost", "costEdgeTiny": "cost",
+          "costLargePos": "cost", "costPrioOutweighs": "cost",
           "notConsolidatable": "cons", "consolidatableEdge": "cons", "consolidatableFalse": "cons", "poolKindFlip": "poolKind",
           "caNever": "ca", "caNeverStale": "ca", "whenEmpty": "policy", "buffer": "buffer", "notDrifted": "drift", "tgp": "tgp", "poolTgp": "poolTgp"}
 
@@ -99,7 +101,13 @@ def _px(pods, name="px"):
     return next((p for p in pods if p["name"] == name), None)
 
 
-def apply_blocker(b, pools, nodes, pods, pdbs, rng=None, xname="x", pxname="px", xpname="xp"):
+COST_ZERO_EDGE = "-134217728"    # eviction cost exactly 0   (1 + dc / 2^27)
+COST_TINY_POS = "-134217727"     # smallest positive eviction cost
+COST_LARGE = "2147483647"
+PRIO_MIN = -2147483648           # priority / 2^25 = -64 -> clamped to -10
+
+
+def apply_blocker(b, pools, nodes, pods, pdbs, rng=None, xname="x", pxname="px", xpname="xp", method=None):
     """Put blocker b of Disruption.tla on node xname (mirror of the model's Apply); pxname is the pod that carries
     pod-level blockers, xpname the node's pool (pool-level blockers change the pool itself)."""
     x, px = next(n for n in nodes if n["name"] == xname), _px(pods, pxname)
@@ -181,6 +189,26 @@ def apply_blocker(b, pools, nodes, pods, pdbs, rng=None, xname="x", pxname="px",
             px["ns"] = "pdbns-" + xname
         elif b == "pdbZeroNilSel":
             pdbs.append(pdb(nm, {}, 0, nilSelector=True))
+    elif b in ("costMixedNeg", "costMixedPrio") and px is not None:
+        # a positive-cost pod next to a strongly negative one on the same node: the costs must not cancel
+        neg = dict(deletionCost=ZERO_COST) if b == "costMixedNeg" else dict(priority=PRIO_MIN, hasPriority=True)
+        if method == "emptiness":
+            if b == "costMixedPrio" and px["owner"] != "daemonset":
+                px.update(deletionCost="", **neg)
+            pods.append(pod(pxname + "n", xname, cpu=300))
+        else:
+            pods.append(pod(pxname + "n", xname, cpu=300, **neg))
+    elif b.startswith("cost") and px is not None:
+        if b == "costAllNonPos":
+            px.update(deletionCost=ZERO_COST)
+        elif b == "costEdgeZero":
+            px.update(deletionCost=COST_ZERO_EDGE)
+        elif b == "costEdgeTiny":
+            px.update(deletionCost=COST_TINY_POS)
+        elif b == "costLargePos":
+            px.update(deletionCost=COST_LARGE)
+        elif b == "costPrioOutweighs":
+            px.update(deletionCost=ZERO_COST, priority=1000000000, hasPriority=True)
     elif b == "notConsolidatable":
         x["lastPodEvent"] = T0 - CA + 1
     elif b == "consolidatableEdge":
@@ -238,7 +266,7 @@ def cell_scenario(cell, rng=None, with_round=True, again=False, variant=0):
     churn = list(cell["churn"]) if isinstance(cell["churn"], list) else []
     pools, nodes, pods, pdbs = base(m, variant)
     for b in pre:
-        apply_blocker(b, pools, nodes, pods, pdbs, rng)
+        apply_blocker(b, pools, nodes, pods, pdbs, rng, method=m)
     during = []
     for b in churn:
         during += churn_steps(b, pods)
@@ -256,26 +284,86 @@ def cell_scenario(cell, rng=None, with_round=True, again=False, variant=0):
 
 
 # ------------------------------------------------------------------ Consolidatable condition behaviours
-def cond_scenario(beh, idx):
-    """A behaviour of DisruptionCond.tla -> steps on the real podevents / nodeclaim-disruption controllers."""
+def cond_scenario(beh, idx, variant="A"):
+    """A behaviour of DisruptionCond.tla -> steps on the real podevents / nodeclaim-disruption controllers, pool edits and
+    decisions of a consolidation method.  variant A: x is empty by eviction cost, the decision is Emptiness; variant B: x
+    hosts a normal pod and an unmanaged node offers room, the decision is single-node consolidation."""
     ca, static, inited = beh["ca"], beh["static"], beh["inited"]
     pools = [pool("xp", static=static, ca=ca)]
     nodes = [node("x", "xp", "small", stage="initialized" if inited else "registered", initializedAt=0, lastPodEvent=-1,
                   createdAt=0)]
-    pods = [pod("px", "x")] if inited else []
+    pods = []
+    if inited:
+        pods = [pod("px", "x", cpu=300, startedAt=0, deletionCost=ZERO_COST if variant == "A" else "")]
+    if variant == "B":
+        nodes.append(node("z", "", "large", managed=False, createdAt=0))
+    method = "emptiness" if variant == "A" else "single"
     steps = []
     for st in beh["steps"]:
-        if st["a"] == "Tick":
+        a = st["a"]
+        if a == "Init":
+            continue
+        if a == "Tick":
             steps.append({"a": "Tick", "d": st["d"]})
-        elif st["a"] == "PodEvent":
-            steps.append({"a": "PodEvents", "pod": {"name": "px", "ns": "default"}})
-        elif st["a"] == "Reconcile":
+        elif a == "PodEvent":
+            if inited:
+                steps.append({"a": "PodEvents", "pod": {"name": "px", "ns": "default"}})
+        elif a == "Reconcile":
             steps.append({"a": "NcDisruption", "node": "x"})
+        elif a == "EditCA":
+            steps.append({"a": "SetPool", "value": "xp", "d": st["d"]})
+        elif a == "Decide":
+            steps.append({"a": "Method", "method": method})
         else:
             raise vlib.InfraError("unknown DisruptionCond step %r" % st)
-    steps.append({"a": "Method", "method": "emptiness"})
-    tags = {"kind": "cond", "ca": ca, "static": static, "inited": inited, "idx": idx}
-    return scenario("cond:%d" % idx, pools, nodes, pods, [], steps, tags, t0=0)
+    if not steps or steps[-1]["a"] != "Method":
+        steps.append({"a": "Method", "method": method})
+    tags = {"kind": "cond", "ca": ca, "static": static, "inited": inited, "idx": idx, "variant": variant}
+    return scenario("cond:%d:%s" % (idx, variant), pools, nodes, pods, [], steps, tags, t0=0)
+
+
+def cond_tours():
+    """Systematic behaviours around the Consolidatable condition: reconciles at T-1 / T / T+1 of the threshold; pool edits of
+    consolidateAfter after the condition was set (raise, lower, Never, back) with and without a reconcile in between; pod
+    events at every offset relative to the condition's transition instant (same second, +-1 s), de-duplicated ones."""
+    R, P, D = {"a": "Reconcile", "d": 0}, {"a": "PodEvent", "d": 0}, {"a": "Decide", "d": 0}
+
+    def T(d):
+        return {"a": "Tick", "d": d}
+
+    def E(c):
+        return {"a": "EditCA", "d": c}
+    out = []
+    for static in (False, True):
+        for inited in (True, False):
+            for ca in (-1, 0, 2):
+                out.append((ca, static, inited, [R, T(1), R, T(1), R, T(1), R, D]))
+                if inited and not static:
+                    out.append((ca, static, inited, [T(1), P, R, T(1), R, T(1), R, T(1), R, D]))
+                    out.append((ca, static, inited, [P, T(1), T(1), R, T(1), P, R, T(9), P, R, T(1), R, T(1), R, T(1), R, D]))
+            if static or not inited:
+                out.append((30, static, inited, [T(30), R, E(3600), R, D, E(30), R, D]))
+                continue
+            C = 30
+            seqs = [
+                [T(C - 1), R, D, T(1), R, D],                                   # threshold
+                [T(C), R, E(3600), R, D],                                       # raised after the condition was set
+                [T(C), R, E(3600), D],                                          # ... not yet reconciled (lag: not judged)
+                [T(C), R, E(3600), R, D, E(C), R, D],                           # ... and back
+                [T(C), R, E(-1), R, D, E(C), R, D],                             # Never and back
+                [T(C), R, E(10), R, D, E(60), R, D, T(20), R, D],               # lowered, raised a little, elapsed again
+                [T(5), P, T(C), R, E(100), R, D, T(60), R, D],                  # with a pod event as the reference
+                [T(C), R, P, R, D],                                             # pod event in the SAME second as the transition
+                [T(C), R, T(1), P, R, D],                                       # one second after
+                [T(C), R, D, P, R, D],
+                [T(C), R, P, T(1), R, D, T(C - 2), R, D, T(1), R, D],           # same second, then the new window elapses
+                [T(C), R, P, T(5), P, R, D],                                    # second event de-duplicated
+                [T(C), R, P, T(10), P, R, D, T(C), R, D],
+            ]
+            out += [(C, static, inited, q) for q in seqs]
+            out.append((1, static, inited, [T(4), P, T(1), R, D, E(C), R, D]))   # pod event one second BEFORE the transition
+            out.append((0, static, inited, [R, P, R, D, E(C), R, D, T(C), R, D]))
+    return [{"ca": ca, "static": st, "inited": ini, "steps": [{"a": "Init", "d": ca}] + q} for ca, st, ini, q in out]
 
 
 # ------------------------------------------------------------------ in-memory protections over time (DisruptionMem.tla)
